@@ -28,8 +28,8 @@ Open Scope nat_scope.
 
 (* the lock invariant: table mutex t is held by i exactly when actor i's program counter is in the range
    in which it holds t (`held`: the first k locks of its sorted lock list while locking, all of them from the
-   last acquisition to the unlock step of Commit / Abort); db.mu is held by i exactly at the two pcs between
-   its Lock and Unlock; and the db.mu holder is never at a lock-acquiring pc and is always enabled *)
+   last acquisition to the unlock step of Commit / Abort); db.mu is held by i exactly at the three pcs (locked, root loaded, root stored)
+   between its Lock and Unlock; and the db.mu holder is never at a lock-acquiring pc and is always enabled *)
 Theorem C10_lock_invariant : forall ntab actors sched, wf_actors ntab actors ->
   let s := reach ntab actors sched in
   (forall t i, nth_error (s_tlock s) t = Some (Some i) <->
@@ -105,7 +105,7 @@ Theorem C10_step_decreases : forall ntab actors sched i, wf_actors ntab actors -
 Proof. exact step_decreases_reachable. Qed.
 Print Assumptions C10_step_decreases.
 
-(* ... so a schedule that only picks enabled actors has at most step_bound (<= 11 + 2*|tabs| per writer, 5 per
+(* ... so a schedule that only picks enabled actors has at most step_bound (<= 12 + 2*|tabs| per writer, 6 per
    registrar) steps, has finished everybody exactly when it has `total` many steps, and can be extended as long
    as somebody is unfinished *)
 Theorem C10_terminates : forall ntab actors sched, wf_actors ntab actors ->
